@@ -76,6 +76,14 @@ pub fn patch_contract_restated(sync: &CopiaSync, basis: &Vec<u8>, delta: &Delta,
 }
 
 impl AsyncCopiaSync {
+//@extract file=src/async_sync.rs impl="AsyncCopiaSync" fn=with_block_size
+//@ret r
+//@requires
+        valid_bs(block_size),   // the function asserts it (R2')
+//@ensures
+        r.bs() == block_size, r.verify(),
+//@twin /block_size\.is_power_of_two\(\) && \(512\.\.=65536\)\.contains\(&block_size\)/ => valid_bs(block_size)
+//@end
 //@extract file=src/async_sync.rs impl="AsyncCopiaSync" fn=sync_files
 //@sig /pub async fn/ => pub fn
 //@ret res
@@ -115,3 +123,57 @@ impl AsyncCopiaSync {
         }
 //@end
 }
+
+// ---- the `copia sync SRC DST` command for one file: single_sync.rs run_sync / run_sync_local_to_local (R4, R11) ----
+impl From<CopiaError> for VErr { #[verifier::external_body] fn from(e: CopiaError) -> Self { VErr { _p: () } } }
+//@item file=src/bin/copia/main.rs kind=enum name=FileLocation
+pub broadcast axiom fn aspr_pathbuf_ref(p: &PathBuf) ensures #[trigger] aspr::<&PathBuf>(&p) == pbv(p);
+// R5 shim for `(512..=65536).contains(&x)`
+#[verifier::external_body]
+pub fn in_cli_range(x: usize) -> (r: bool) ensures r == (512 <= x <= 65536) { (512..=65536).contains(&x) }
+// the two remote directions of the single-file command are outside this unit (ssh children; C09's push clause): by name only
+#[verifier::external_body]
+pub fn run_sync_local_to_remote(source: &Path, host: &str, remote_path: &str, block_size: usize, verbose: bool) -> (r: std::result::Result<(), VErr>) { unimplemented!() }
+#[verifier::external_body]
+pub fn run_sync_remote_to_local(host: &str, remote_path: &str, dest: &PathBuf, block_size: usize, verbose: bool) -> (r: std::result::Result<(), VErr>) { unimplemented!() }
+
+//@extract file=src/bin/copia/main.rs fn=validate_block_size
+//@sig /Result<\(\)/ => std::result::Result<()
+//@ret r
+//@ensures
+    r is Ok <==> valid_bs(size),
+//@replace /\(512\.\.=65536\)\.contains\(&size\)/ => in_cli_range(size)
+//@end
+//@extract file=src/bin/copia/single_sync.rs fn=run_sync_local_to_local
+//@sig /async fn/ => fn
+//@sig /Box<dyn std::error::Error>/ => VErr
+//@sig /Result<\(\)/ => std::result::Result<()
+//@replace /\.await/ =>  #all
+//@ret res
+//@param+
+    Tracked(w): Tracked<&mut SW>
+//@requires
+    valid_bs(block_size),
+//@ensures
+    // C01, `copia sync SRC DST` on two local files: exit status 0 only with DST byte-identical to what SRC held
+    (collision_free() && res is Ok) ==> old(w).files.contains_key(pbv(source)) && final(w).files.contains_key(pbv(dest))
+        && final(w).files[pbv(dest)] == old(w).files[pbv(source)],
+//@replace? /sync\.sync_files\(((?:[^()]|\([^()]*\))*)\)/ => sync.sync_files(\1, Tracked(w)) #all
+//@at entry
+    broadcast use aspr_pathbuf_ref;
+//@end
+//@extract file=src/bin/copia/single_sync.rs fn=run_sync
+//@sig /pub async fn/ => fn
+//@sig /Box<dyn std::error::Error>/ => VErr
+//@sig /Result<\(\)/ => std::result::Result<()
+//@replace /\.await/ =>  #all
+//@ret res
+//@param+
+    Tracked(w): Tracked<&mut SW>
+//@ensures
+    // for ANY --block-size value: an invalid one is a reported error, never the engine's assert! (C20-style clause); two local
+    // files: success only with DST == SRC
+    (collision_free() && res is Ok && source is Local && dest is Local) ==> old(w).files.contains_key(pbv(&source->Local_0))
+        && final(w).files.contains_key(pbv(&dest->Local_0)) && final(w).files[pbv(&dest->Local_0)] == old(w).files[pbv(&source->Local_0)],
+//@replace? /run_sync_local_to_local\(((?:[^()]|\([^()]*\))*)\)/ => run_sync_local_to_local(\1, Tracked(w)) #all
+//@end
